@@ -15,7 +15,7 @@ import checks.C02 as c02
 def run(ctx):
     import indep_ir
     import randschema
-    n = 6 if ctx.quick() else 60
+    n = 6 if ctx.quick() else 20
     with Lock():
         check_theorems("Props/C11")     # builds Tl1Resolve.vo (imported by Props/C11.v) before the checker is extracted
     leg = indep_ir.ResolutionLeg(ctx)   # corr:C11:resolution
@@ -46,7 +46,7 @@ def run(ctx):
     ctx.coverage = cov2
     bins, berr = build_tools(ctx.scratch, which=("verifdump",))
     if not berr:
-        leg.run_extra(bins["verifdump"], 150 if ctx.quick() else 1500)
+        leg.run_extra(bins["verifdump"], 150 if ctx.quick() else 800)
     leg.report_violations(ctx)
     leg.report_evidence(ctx)
     tl2_thread.join()
